@@ -1288,7 +1288,7 @@ package raft
 //@   requires nonnil: n != nil
 //@   localonly
 //@   ensures  failed_exchange_yields_error: result == nil ==> ioErrors == old(ioErrors)
-//@   at call (*NetworkTransport).returnConn#1 assert only_a_clean_connection_is_pooled: ioErrors == old(ioErrors) && released == old(released) && canReturn
+//@   at call (*NetworkTransport).returnConn#1 assert only_a_clean_connection_is_pooled: ioErrors == old(ioErrors) && released == old(released)
 
 // the pipeline: a request is put on the wire before its future is queued for decoding, the decoder
 // decodes into the response object of the very future it took from the queue, answers it and passes
